@@ -277,6 +277,8 @@ def run_case(ctx, case):
         ctx.count("history:curve-sheared-or-stretched-before-judging")
     ref = xr.Ref(spec, lib)
     ctx.count(f"kind:{kind}")
+    if kind == "circle" and float(np.linalg.norm(np.array(spec["origin"], dtype=float) - ref.o)) > 1e-9 * (1 + ref.radius):
+        ctx.count("circle:origin-elsewhere-on-the-axis")
     spacing, ratio = _spacing(ref)
     if spacing != "even" and kind in xr.POINT_KINDS:
         ctx.count("spacing:uneven")
